@@ -85,10 +85,10 @@ def run(ctx):
                 A, U, V = spectral_problem(rng, m, n, sv); problems.append((f'spectral-scaled-2^{e}', m, n, A, sv, U, V))
     gammas = [Fraction(1, 2), Fraction(1)] if ctx.quick() else [Fraction(1, 4), Fraction(1, 2), Fraction(3, 4), Fraction(1)]
     for (cls, m, n, A, sv, U, V) in problems:
-        An = qx.to_np(A); f2 = qx.frob2(A)
+        An = qx.to_np(A); f2 = qx.frob2(A); nfl = 1e-12 * float(utils.quat_frobenius_norm(An))        # rounding-noise floor, relative to ||A||_F
         inp0 = {'class': cls, 'shape': [m, n], 'A': [[[str(c) for c in a.t()] for a in r] for r in A], 'singular_values': [str(s) for s in sv] if sv else None}
         for g in gammas:
-            K = 3 if ctx.quick() else 5
+            K = 3 if ctx.quick() else 4
             for variant in (['dense', 'sparse'] if (m, n) in ((3, 2), (2, 3), (2, 2)) else ['dense']):
                 inp = dict(inp0, gamma=str(g), K=K, storage=variant)
                 arg = An if variant == 'dense' else mk_sparse(utils, A)
@@ -100,13 +100,14 @@ def run(ctx):
                 if not np.all(np.isfinite(Xf)): viol('C03:damped:nonfinite' + (':zero' if f2 == 0 else ''), 'damped Newton-Schulz returned NaN/inf', inp); continue
                 Xe = qx.from_np(X)
                 E1 = [float(v) for v in res['AXA-A']]
-                if any(E1[i + 1] > E1[i] * (1 + 1e-9) + 1e-13 for i in range(len(E1) - 1)): viol('C03:damped:monotone', '||A X A - A||_F increases', inp, E1)
+                if any(E1[i + 1] > E1[i] * (1 + 1e-9) + 1e-13 + nfl for i in range(len(E1) - 1)): viol('C03:damped:monotone', '||A X A - A||_F increases', inp, E1)
                 if len(E1) != K or len(cov) != K: viol('C03:damped:history-length', 'history length differs from the iteration budget (tol = 0)', inp, (len(E1), len(cov)))
                 # histories are the true values of the returned iterate
                 AX = qx.mm(A, Xe); XA = qx.mm(Xe, A)
                 true_last = [qx.frob2(qx.sub(qx.mm(AX, A), A)), qx.frob2(qx.sub(qx.mm(XA, Xe), Xe)), qx.frob2(qx.sub(AX, qx.herm(AX))), qx.frob2(qx.sub(XA, qx.herm(XA)))]
-                for key, tv in zip(('AXA-A', 'XAX-X', 'AX-herm', 'XA-herm'), true_last):
-                    if res[key] and abs(sq(res[key][-1]) - tv) > Fraction(1, 10 ** 8) * tv + Fraction(1, 10 ** 20): viol(f'C03:damped:history:{key}', 'last reported residual is not the residual of the returned X', inp, float(res[key][-1]) ** 2, float(tv))
+                nX = float(utils.quat_frobenius_norm(X))
+                for key, tv, floor in zip(('AXA-A', 'XAX-X', 'AX-herm', 'XA-herm'), true_last, (nfl, 1e-12 * nX, 1e-12, 1e-12)):
+                    if res[key] and abs(sq(res[key][-1]) - tv) > Fraction(1, 10 ** 8) * tv + Fraction(1, 10 ** 20) + Fraction(floor) ** 2: viol(f'C03:damped:history:{key}', 'last reported residual is not the residual of the returned X', inp, float(res[key][-1]) ** 2, float(tv))
                 # spectral model
                 if sv is not None:
                     r = len(sv); tot = sum(s * s for s in sv)
@@ -118,9 +119,9 @@ def run(ctx):
                     Xs = qx.mm(qx.mm(V, D), qx.herm(U))
                     if qx.maxabs(qx.sub(Xs, Xe)) > Fraction(1, 10 ** 8) * max(1, qx.maxabs(Xs)): viol('C03:damped:recurrence', f'X_{K} is not V diag(t_k/s) U^H with t <- t(1+gamma(1-t))', inp, float(qx.maxabs(qx.sub(Xs, Xe))))
                     e1 = sum(s * s * (1 - t) ** 2 for s, t in zip(sv, ts))
-                    if abs(sq(E1[-1]) - e1) > Fraction(1, 10 ** 7) * e1 + Fraction(1, 10 ** 18) * min(1, tot): viol('C03:damped:residual-formula', '||AXA-A||^2 != sum s^2 (1-t)^2', inp, E1[-1] ** 2, float(e1))
+                    if abs(sq(E1[-1]) - e1) > Fraction(1, 10 ** 7) * e1 + Fraction(1, 10 ** 18) * min(1, tot) + Fraction(nfl) ** 2: viol('C03:damped:residual-formula', '||AXA-A||^2 != sum s^2 (1-t)^2', inp, E1[-1] ** 2, float(e1))
                 ctx.count(('damped', cls, m, n, str(g), variant, [a.t() for row in A for a in row]), K >= 2, sample=dict(inp0, gamma=str(g), K=K) if cls == 'spectral' and (m, n) == (3, 2) and len(ctx.cov['samples']) < 2 else None)
-                if variant == 'dense' and cls != 'spectral' + '-scaled' and not cls.startswith('spectral-scaled') and (f2 == 0 or max(len(str(Fraction(c).denominator)) for row in A for a in row for c in a.t()) < 12):
+                if variant == 'dense' and m * n <= 9 and cls != 'spectral' + '-scaled' and not cls.startswith('spectral-scaled') and (f2 == 0 or max(len(str(Fraction(c).denominator)) for row in A for a in row for c in a.t()) < 12):
                     h = '[' + '; '.join('(' + ', '.join(Ql(sq(x)) for x in (cov[i], res['AXA-A'][i], res['XAX-X'][i], res['AX-herm'][i], res['XA-herm'][i])) + ')' for i in range(K)) + ']'
                     dterms.append(f'({m}%nat, {n}%nat, {Ql(g)}, {K}%nat, {qmat_lit(A)}, {h}, {qmat_lit(Xe)})')
         # tracking off: same iterates
@@ -134,7 +135,7 @@ def run(ctx):
         Te = qx.from_np(T) if np.all(np.isfinite(quaternion.as_float_array(T))) else None
         if Te is None: viol('C03:third:nonfinite', 'third-order Newton-Schulz returned NaN/inf', inp0); continue
         E1 = [float(v) for v in res3['AXA-A']]
-        if any(E1[i + 1] > E1[i] * (1 + 1e-9) + 1e-13 for i in range(len(E1) - 1)): viol('C03:third:monotone', '||A X A - A||_F increases (third order)', inp0, E1)
+        if any(E1[i + 1] > E1[i] * (1 + 1e-9) + 1e-13 + nfl for i in range(len(E1) - 1)): viol('C03:third:monotone', '||A X A - A||_F increases (third order)', inp0, E1)
         if sv is not None:
             tot = sum(s * s for s in sv); ts = [(s * s / tot if tot else Fraction(0)) for s in sv]
             for _ in range(K3): ts = [1 - (1 - t) ** 3 for t in ts]
@@ -144,7 +145,7 @@ def run(ctx):
             Xs = qx.mm(qx.mm(V, D), qx.herm(U))
             if qx.maxabs(qx.sub(Xs, Te)) > Fraction(1, 10 ** 8) * max(1, qx.maxabs(Xs)): viol('C03:third:recurrence', 'third-order iterate is not V diag(t_k/s) U^H with t <- 1-(1-t)^3', inp0, float(qx.maxabs(qx.sub(Xs, Te))))
         ctx.count(('third', cls, m, n, [a.t() for row in A for a in row]), True)
-        if not cls.startswith('spectral-scaled') and (f2 == 0 or max(len(str(Fraction(c).denominator)) for row in A for a in row for c in a.t()) < 12):
+        if m * n <= 9 and not cls.startswith('spectral-scaled') and (f2 == 0 or max(len(str(Fraction(c).denominator)) for row in A for a in row for c in a.t()) < 12):
             h = '[' + '; '.join('(' + ', '.join(Ql(sq(res3[k][i])) for k in ('AXA-A', 'XAX-X', 'AX-herm', 'XA-herm')) + ')' for i in range(K3)) + ']'
             tterms.append(f'({m}%nat, {n}%nat, {K3}%nat, {qmat_lit(A)}, {h}, {qmat_lit(Te)})')
         # stop rule: stops at the first k whose maximal residual is below tol, returns that iterate, bound on the distance to A^+
